@@ -701,3 +701,29 @@ func condField(v ssa.Value) *types.Var {
 	}
 	return nil
 }
+
+// provThroughFrames: the provenance of a value at a node of an expanded graph; a value
+// that is a parameter of an expanded helper is replaced by the argument at the helper's
+// call site (repeatedly, up to the root function).
+func provThroughFrames(prov *core.Prov, n *core.Node, v ssa.Value) string {
+	fr := n.Frame
+	for fr != nil && fr.Parent != nil && fr.CallSite != nil {
+		prm, isP := core.StripConv(v).(*ssa.Parameter)
+		if !isP {
+			break
+		}
+		idx := -1
+		for i, q := range fr.Fn.Params {
+			if q == prm {
+				idx = i
+			}
+		}
+		call, isCall := fr.CallSite.Instr.(*ssa.Call)
+		if idx < 0 || !isCall || idx >= len(call.Call.Args) {
+			break
+		}
+		v = call.Call.Args[idx]
+		fr = fr.Parent
+	}
+	return prov.Of(v)
+}
